@@ -11,7 +11,7 @@
 import EasyMl.Model.MatrixView
 import EasyMl.Spec.Tensor
 
-namespace EasyMl
+namespace EasyMl.Fallible
 
 variable {ν : Type} [DecidableEq ν]
 
@@ -24,13 +24,21 @@ def TView.Total (v : TView ν) : Prop :=
 
 def TView.WF (v : TView ν) : Prop := UShape v.shape ∧ v.Total
 
+end EasyMl.Fallible
+
+namespace EasyMl.MatrixView
+
 def MView.Total (v : MView) : Prop :=
   ∀ row column : Nat,
     ∃ r, v.get row column = .ok r ∧ (r.isSome = true ↔ row < v.rows ∧ column < v.columns)
 
 def MView.WF (v : MView) : Prop := v.rows ≤ usizeMax ∧ v.columns ≤ usizeMax ∧ v.Total
 
-/-- never panics: the outcome is a value -/
-def Outcome.Returns {α : Type} (o : Outcome α) : Prop := ∃ a, o = .ok a
+end EasyMl.MatrixView
 
-end EasyMl
+namespace EasyMl.Fallible
+
+/-- never panics: the outcome is a value -/
+def Returns {α : Type} (o : Outcome α) : Prop := ∃ a, o = .ok a
+
+end EasyMl.Fallible
